@@ -499,6 +499,7 @@ def extract_enum(spec):
     items = [it.strip() for it in split_top(inner, ',') if it.strip()]
     out = []
     fired = {}
+    oname = spec.get('rename', spec['name'])   # C has one namespace for enumerators: a second enum of the same name gets another prefix
     for it in items:
         m = re.match(r'^(\w+)\s*(?:=\s*(.+))?$', it, re.S)
         if not m:
@@ -508,11 +509,11 @@ def extract_enum(spec):
             val = generic_rewrite(val.strip(), fired, no_members=True)
             # references to earlier enumerators of the same enum
             names = [x.split(' ')[0] for x in out]
-            val = re.sub(r'\b(\w+)\b', lambda mm: spec['name'] + '_' + mm.group(1) if (spec['name'] + '_' + mm.group(1)) in names else mm.group(1), val)
-            out.append("%s_%s = %s" % (spec['name'], m.group(1), val))
+            val = re.sub(r'\b(\w+)\b', lambda mm: oname + '_' + mm.group(1) if (oname + '_' + mm.group(1)) in names else mm.group(1), val)
+            out.append("%s_%s = %s" % (oname, m.group(1), val))
         else:
-            out.append("%s_%s" % (spec['name'], m.group(1)))
-    text = "enum %s { %s }" % (spec['name'], ', '.join(out))
+            out.append("%s_%s" % (oname, m.group(1)))
+    text = "enum %s { %s }" % (oname, ', '.join(out))
     for pat, msg in LEFTOVER:
         if re.search(pat, text):
             raise ExtractionError("%s: %s in enum" % (what, msg))
